@@ -358,6 +358,26 @@ def real_stages(m: onnx.ModelProto, call: dict, ctx: dict, lits: L.Lits) -> dict
             out["adapt_model_restored"] = node.model is base
         except Exception:  # noqa: BLE001
             pass
+        # the same node adapted again under OTHER outer names (another build): nothing may be remembered
+        try:
+            arg2 = list(reversed(ctx["argNames"]))
+            res2 = [n + "_r" for n in ctx["resNames"]]
+            node2 = ctx["nodeName"] + "7"
+            var_names2 = dict(zip(node.inputs.inputs, arg2))
+            var_names2.update(zip(node.outputs.outputs, res2))
+            onnx.version_converter.convert_version = spy
+            try:
+                got2 = adapt_fn(node, list(nodes), {"": ad["target"]}, var_names2, node2)
+                out["adapt2"] = {"nodes": [L.abstract_node(n, lits) for n in got2]}
+            except Exception as e:  # noqa: BLE001
+                out["adapt2"] = type(e).__name__
+            finally:
+                onnx.version_converter.convert_version = real_conv
+            out["ctx2"] = {"nodeName": node2, "argNames": arg2, "resNames": res2,
+                           "var": {"used": list(dict.fromkeys(arg2 + res2)), "counters": []},
+                           "node": {"used": [node2], "counters": []}}
+        except Exception as e:  # noqa: BLE001
+            out["unobservable"] = f"adapt_inline (second call): {type(e).__name__}: {e}"
     return out
 
 
@@ -421,7 +441,7 @@ class Infra(Exception):
     """Trouble of the harness / third-party runtime on m itself (exit 2, never a verdict)."""
 
 
-FORMS = ["once", "twice", "shared-callable", "chained", "if-body", "mixed-opset", "nested-if-twice", "loop-body", "history"]
+FORMS = ["once", "twice", "shared-callable", "chained", "if-body", "mixed-opset", "nested-if-twice", "loop-body", "history", "name-history"]
 
 
 def input_values(rng: random.Random, m: onnx.ModelProto) -> dict:
@@ -615,6 +635,48 @@ def oracle_compose(m: onnx.ModelProto, form: str, seed: int) -> list[tuple[str, 
                             fails.append(("history-dependent-build", "the same program (same Vars) built before and after other builds around the same Inline node differs"))
                 if m.SerializeToString(deterministic=True) != before:
                     fails.append(("m-modified", "history: the caller's model changed"))
+                return fails
+            elif form == "name-history":
+                # ONE Inline node built into several programs at the SAME target opset under different
+                # outer names: permuted argument keys, other result names, an extra Inline node in front
+                # (shifts Inline_k). Nothing of one build may leak into the next.
+                f = inline(m)
+                d = direct(vals1, omit)
+                r = apply(f, A, npos, omit)
+                r_front = apply(inline(m), neg_args(), len(ins), [])
+                d_front = direct(vals2)
+                vT = rng.choice([18, 19, 20, 21])
+                n_in = len(ins)
+                plans = [("plain", 0, "res", False), ("rotated-keys", 1, "res", False), ("renamed-results", 0, "out", False),
+                         ("shifted-node", 0, "res", True), ("rotated+renamed+shifted", n_in - 1 if n_in > 1 else 0, "y", True), ("plain-again", 0, "res", False)]
+                for label, rot, oname, front in plans:
+                    keys = [f"arg_{(j + rot) % n_in}" for j in range(n_in)]
+                    o_in = {keys[j]: A[n] for j, n in enumerate(ins)}
+                    fd = {keys[j]: vals1[n] for j, n in enumerate(ins)}
+                    res, exp = {}, {}
+                    if front:
+                        for k, o in enumerate(outs):
+                            res[f"front_{k}"], exp[f"front_{k}"] = r_front[o], d_front[o]
+                    for k, o in enumerate(outs):
+                        res[f"{oname}_{k}"] = bump(vT, r[o]) if o in float_outs else r[o]
+                        exp[f"{oname}_{k}"] = d[o]
+                    try:
+                        built = build(o_in, res)
+                    except Exception as e:  # noqa: BLE001
+                        fails.append((classify_build_error(m, e), f"name-history step {label}: build raised {type(e).__name__}: {str(e)[:250]}"))
+                        break
+                    try:
+                        got = dict(zip([o.name for o in built.graph.output], ort_run(built, fd)))
+                    except Exception as e:  # noqa: BLE001
+                        fails.append((f"name-history:outer-model-rejected:{type(e).__name__}", f"name-history step {label}: onnxruntime refuses the built model: {str(e)[:250]}"))
+                        break
+                    bad = [k for k in exp if not same(got[k], exp[k])]
+                    if bad:
+                        k = bad[0]
+                        fails.append(("result-mismatch:name-history", f"name-history step {label}: output {k}: inlined {np.asarray(got[k]).tolist()} but m computes {np.asarray(exp[k]).tolist()}"))
+                        break
+                if m.SerializeToString(deterministic=True) != before:
+                    fails.append(("m-modified", "name-history: the caller's model changed"))
                 return fails
             elif form == "chained":
                 f = inline(m)
@@ -952,7 +1014,7 @@ def run(ck: core.Check):
         ck.leanchecker(["SpoxModel.Props.C08"])
 
     rng = ck.rng
-    n_hand, n_spox = ck.pick((220, 80), (1500, 500))
+    n_hand, n_spox = ck.pick((220, 80), (1100, 380))
     models, snaps, dropped = make_models(ck, n_hand, n_spox)
     ck.log(f"{len(models)} models generated ({dropped} invalid candidates dropped)")
     feature_hist: dict[str, int] = {}
@@ -963,6 +1025,7 @@ def run(ck: core.Check):
     # ---- tie H: stages of inline(m)(call) + to_onnx, model vs real
     lits = L.Lits()
     reqs, reals, descr = [], [], []
+    reqs2: list = []
     n_forms = ck.pick(4, 6)
     with warnings.catch_warnings():
         warnings.simplefilter("ignore")
@@ -990,6 +1053,11 @@ def run(ck: core.Check):
                             "converted": real.get("adapt_converted"),
                         }
                     reqs.append(rq)
+                    if "adapt2" in real and not real.get("adapt_conv_raised") and real.get("adapt_called"):
+                        # second request: the model's adaptInline under the other names, first emission = the
+                        # build's nodes under the FIRST names (what the real second call was handed)
+                        reqs2.append((len(reqs) - 1, {"model": rq["model"], "call": call, "ctx": real["ctx2"],
+                                                      "adapt": {**rq["adapt"], "varNames": real["ctx2"]["var"]["used"]}}))
                     reals.append(real)
                     descr.append((mi, call, ctx))
     try:
@@ -1031,6 +1099,25 @@ def run(ck: core.Check):
             if mism <= 3:
                 ck.broken("correspondence", "C08 stages model-vs-implementation",
                           f"{d} | model#{mi} {json.dumps(L.summary(models[mi][0]))[:500]} call={json.dumps(call)[:200]} ctx={json.dumps({k: v for k, v in ctx.items() if not k.startswith('_')})[:300]}")
+    # adapt_inline called twice on one node under different names
+    try:
+        ans2 = ck.driver().ask_many("C08", [r for _, r in reqs2]) if reqs2 else []
+    except Exception as e:  # noqa: BLE001
+        ck.broken("correspondence", "C08 driver (adapt2)", str(e))
+        ans2 = []
+    mism2 = 0
+    for (i, _), a in zip(reqs2, ans2):
+        ra = reals[i]["adapt2"]
+        ma = a.get("adapt")
+        ok = (ra == ma) if isinstance(ra, str) or isinstance(ma, str) or ma is None else (
+            (not ma["converts"]) or ra["nodes"] == ma["nodes"])
+        if not ok:
+            mism2 += 1
+            if mism2 <= 2:
+                ck.broken("correspondence", "C08 adapt_inline under other names (second call on the same node)",
+                          f"real {json.dumps(ra)[:400]} model {json.dumps(ma)[:400]}")
+    ck.cov["adapt_second_call_cases"] = len(reqs2)
+    ck.cov["adapt_second_call_mismatches"] = mism2
     ck.cov["correspondence_cases"] = len(reqs)
     ck.cov["correspondence_mismatches"] = mism
     ck.cov["correspondence_outcomes"] = outcomes
